@@ -2,6 +2,7 @@
  * real processes; expected values are computed with the library from the generated expression tree, never by parsing tool syntax. */
 #define _GNU_SOURCE
 #include "hv.h"
+#include <limits.h>
 #include "topo.h"
 #include "hist.h"
 #include <hwloc/diff.h>
@@ -393,12 +394,79 @@ static void distrib_case(uint64_t index)
   run_free(&r); hwloc_topology_destroy(T);
 }
 
+/* hwloc-distrib with --restrict / --from / --to / --at / --reverse: the expected output is computed on the library side by applying the
+ * options in the documented order (restrict the topology first, then look the types up in what is left, then hwloc_distrib()) */
+static void distrib_opts_case(uint64_t index)
+{
+  if (!load_input(index, 0)) return;
+  /* hwloc-distrib loads its input with the default type filters (instruction caches, I/O and Misc are not kept): the structure the
+   * distribution follows is the one of a topology loaded the same way */
+  { hwloc_topology_destroy(T); T = NULL; hwloc_topology_init(&T);
+    int rc = input_arg[0] == '/' ? hwloc_topology_set_xml(T, input_arg) : hwloc_topology_set_synthetic(T, input_arg);
+    if (rc != 0 || hwloc_topology_load(T) != 0) { hwloc_topology_destroy(T); T = NULL; return; } }
+  hwloc_topology_t T2 = NULL; if (hwloc_topology_dup(&T2, T) != 0) { hwloc_topology_destroy(T); return; }
+  char rs[400] = ""; int restricted = 0;
+  if (hv_chance(&R, 2, 3)) {
+    /* keep the PUs below one or two objects of a random normal level, or a random half of the PUs */
+    hwloc_bitmap_t keep = hwloc_bitmap_alloc(); int depth = hwloc_topology_get_depth(T);
+    if (hv_chance(&R, 2, 3)) { int d = 1 + (int)hv_below(&R, (uint64_t)(depth > 1 ? depth - 1 : 1)); unsigned nb = hwloc_get_nbobjs_by_depth(T, d); for (unsigned q = 0; q < 1 + hv_below(&R, 2); q++) hwloc_bitmap_or(keep, keep, hwloc_get_obj_by_depth(T, d, (unsigned)hv_below(&R, nb))->cpuset); }
+    else { int id; hwloc_bitmap_foreach_begin(id, hwloc_topology_get_topology_cpuset(T)) if (hv_chance(&R, 1, 2)) hwloc_bitmap_set(keep, (unsigned)id); hwloc_bitmap_foreach_end(); }
+    if (!hwloc_bitmap_iszero(keep) && hwloc_bitmap_intersects(keep, hwloc_topology_get_allowed_cpuset(T)) && hwloc_topology_restrict(T2, keep, 0) == 0) { hwloc_bitmap_snprintf(rs, sizeof rs, keep); restricted = 1; }
+    hwloc_bitmap_free(keep);
+  }
+  /* types are looked up in the restricted topology; only types with a single level there are named */
+  int depth2 = hwloc_topology_get_depth(T2); int from_d = 0, to_d = INT_MAX; const char *from_n = NULL, *to_n = NULL; int at = 0;
+  unsigned mode = (unsigned)hv_below(&R, 5);   /* 0 none, 1 from, 2 to, 3 from+to, 4 at */
+  int cand[64], nc = 0;
+  for (int d = 1; d < depth2 && nc < 64; d++) { hwloc_obj_type_t ty = hwloc_get_depth_type(T2, d); if (ty != HWLOC_OBJ_GROUP && hwloc_get_type_depth(T2, ty) == d) cand[nc++] = d; }
+  if (!nc) mode = 0;
+  if (mode == 1 || mode == 3) { from_d = cand[hv_below(&R, (uint64_t)nc)]; from_n = hwloc_obj_type_string(hwloc_get_depth_type(T2, from_d)); }
+  if (mode == 2 || mode == 3) { to_d = cand[hv_below(&R, (uint64_t)nc)]; if (mode == 3 && to_d < from_d) { int x = to_d; to_d = from_d; from_d = x; from_n = hwloc_obj_type_string(hwloc_get_depth_type(T2, from_d)); } to_n = hwloc_obj_type_string(hwloc_get_depth_type(T2, to_d)); }
+  if (mode == 4) { at = 1; from_d = to_d = cand[hv_below(&R, (uint64_t)nc)]; from_n = hwloc_obj_type_string(hwloc_get_depth_type(T2, from_d)); }
+  int reverse = hv_chance(&R, 1, 4), single = hv_chance(&R, 1, 4);
+  unsigned npu = (unsigned)hwloc_get_nbobjs_by_type(T2, HWLOC_OBJ_PU); unsigned n = 1 + (unsigned)hv_below(&R, npu * 2 > 32 ? 32 : npu * 2);
+  char nb[16]; snprintf(nb, sizeof nb, "%u", n);
+  char *args[24]; int a = 0; args[a++] = "-i"; args[a++] = input_arg;
+  /* option order on the command line is free: the restriction is written before or after the type options */
+  int restrict_first = hv_chance(&R, 1, 2);
+  if (restricted && restrict_first) { args[a++] = "--restrict"; args[a++] = rs; }
+  if (at) { args[a++] = "--at"; args[a++] = (char *)from_n; } else { if (from_n) { args[a++] = "--from"; args[a++] = (char *)from_n; } if (to_n) { args[a++] = "--to"; args[a++] = (char *)to_n; } }
+  if (restricted && !restrict_first) { args[a++] = "--restrict"; args[a++] = rs; }
+  if (reverse) args[a++] = "--reverse"; if (single) args[a++] = "--single";
+  args[a++] = nb; args[a] = NULL;
+  args_desc("hwloc-distrib", args); hv_ctxkey("distrib_opts");
+  /* library-side evaluation */
+  unsigned nroots = hwloc_get_nbobjs_by_depth(T2, from_d); hwloc_obj_t *roots = calloc(nroots ? nroots : 1, sizeof *roots); for (unsigned i = 0; i < nroots; i++) roots[i] = hwloc_get_obj_by_depth(T2, from_d, i);
+  hwloc_bitmap_t *want = calloc(n, sizeof *want);
+  int drc = hwloc_distrib(T2, roots, nroots, want, n, to_d, reverse ? HWLOC_DISTRIB_FLAG_REVERSE : 0);
+  struct run r; run_tool("hwloc-distrib", args, NULL, &r);
+  if (!tool_died("hwloc-distrib", &r) && drc == 0) {
+    if (!r.exited || r.code) hv_viol("distrib_opts.failed", "hwloc-distrib exited with %d: %.300s", r.code, r.err.s);
+    else { hwloc_bitmap_t s = hwloc_bitmap_alloc(); unsigned lines = 0; char *copy = strdup(r.out.s);
+      for (char *ln = strtok(copy, "\n"); ln && !hv_viol_count(); ln = strtok(NULL, "\n")) {
+        if (hwloc_bitmap_sscanf(s, ln) != 0) { hv_viol("distrib_opts.unparsable", "line %u \"%.100s\" is not a bitmap", lines, ln); break; }
+        if (lines < n) { hwloc_bitmap_t w = hwloc_bitmap_dup(want[lines]);
+          if (single) { if (reverse) { int last = hwloc_bitmap_last(w); hwloc_bitmap_only(w, (unsigned)last); } else hwloc_bitmap_singlify(w); }
+          if (!hwloc_bitmap_isequal(s, w)) { char a1[300], a2[300]; hwloc_bitmap_list_snprintf(a1, sizeof a1, s); hwloc_bitmap_list_snprintf(a2, sizeof a2, w);
+            hv_viol(restricted && (from_n || to_n) ? "distrib_opts.set.restrict_and_type" : restricted ? "distrib_opts.set.restrict" : "distrib_opts.set", "set %u is {%s}; restricting first, then looking the types up and calling hwloc_distrib() gives {%s}", lines, a1, a2); }
+          hwloc_bitmap_free(w); }
+        lines++; }
+      free(copy);
+      if (!hv_viol_count() && lines != n) hv_viol("distrib_opts.count", "hwloc-distrib %u printed %u sets", n, lines);
+      hwloc_bitmap_free(s); hv_stat("distrib_opts.commands", 1); if (restricted && (from_n || to_n)) hv_stat("distrib_opts.restrict_with_type_options", 1);
+      hv_distinct(4, hv_hash_u64(n * 64 + mode * 8 + (unsigned)restricted * 4 + (unsigned)reverse * 2 + (unsigned)single, tv_shape_hash(T2))); }
+  }
+  for (unsigned i = 0; i < n; i++) if (want[i]) hwloc_bitmap_free(want[i]);
+  free(want); free(roots);
+  run_free(&r); hwloc_topology_destroy(T2); hwloc_topology_destroy(T);
+}
+
 void hv_case(uint64_t index)
 {
   hv_rng_seed(&R, HV.seed, "c20", index);
   snprintf(tmpdir, sizeof tmpdir, "%s/c20-%d", HV.outdir ? HV.outdir : ".", (int)getpid()); mkdir(tmpdir, 0755);
   unsigned k = (unsigned)(index % 10);
-  if (k < 5) calc_case(index); else if (k == 5) malformed_case(index); else if (k == 6 || k == 7) lstopo_case(index); else if (k == 8) diffpatch_case(index); else distrib_case(index);
+  if (k < 5) calc_case(index); else if (k == 5) malformed_case(index); else if (k == 6 || k == 7) lstopo_case(index); else if (k == 8) diffpatch_case(index); else if ((index / 10) % 2) distrib_opts_case(index); else distrib_case(index);
   if (index < 10) hv_sample("%s", hv_desc_get());
   rmdir(tmpdir);
   hv_ctxkey("%s", "");
